@@ -26,6 +26,7 @@ type pendingDeposit struct {
 	toStr  string
 	amount int64
 	denom  string
+	hook   bool // carries a hook signed by the recipient: [spend half of the deposit, a transfer that cannot be paid] — the hook fails as a whole
 }
 
 type c06Model struct {
@@ -60,6 +61,7 @@ func mkDeposits(e *L2Env, n int) []pendingDeposit {
 		if k%5 == 4 {
 			d.amount = 0 // an empty deposit (to an account that exists by then) is a deposit like any other: it takes its sequence
 		}
+		d.hook = k%7 == 3 && d.amount > 0
 		out = append(out, d)
 	}
 	return out
@@ -83,10 +85,30 @@ func (c *c06) step(e *L2Env, m *c06Model, d pendingDeposit, sender sim.Account, 
 			msg.Amount.Amount = math.NewInt(d.amount * 3)
 		}
 	}
+	if isExec && (len(path)+int(d.seq%1000))%5 == 0 {
+		// the executor spells its own address in upper case (a valid bech32 spelling of the same account)
+		msg.Sender = strings.ToUpper(msg.Sender)
+		run.Count("C06.deliveries_signed_under_uppercase_spelling")
+	}
+	hooked := false
+	if d.hook && d.seq == m.next && d.toStr == d.to.String() {
+		// a multi-message hook whose first message spends part of what this very deposit credits and whose second cannot
+		// be paid: the hook fails as a whole, the deposit is refunded, and it still takes its sequence
+		if n, sq, ok := e.L2.AccNumSeq(d.to.Addr); ok {
+			l2d := e.L2Denom(d.denom)
+			bz, err := e.L2.SignTx(d.to, n, sq, sim.L2ChainID, 300_000,
+				banktypes.NewMsgSend(d.to.Addr, e.Users[5].Addr, sdk.NewCoins(sdk.NewCoin(l2d, math.NewInt(d.amount/2+1)))),
+				banktypes.NewMsgSend(d.to.Addr, e.Users[5].Addr, sdk.NewCoins(sdk.NewCoin(l2d, math.NewInt(1<<62).MulRaw(2)))))
+			if err == nil {
+				msg.Data = bz
+				hooked = true
+			}
+		}
+	}
 	res := e.L2.Deliver(msg)
 	run.Evaluations++
 	after := e.L2.Dump()
-	tr := append(append([]string(nil), path...), fmt.Sprintf("deliver(seq=%d by=%s) with next=%d -> %s %s", d.seq, sender.Name, m.next, res.Class, res.ErrString()))
+	tr := append(append([]string(nil), path...), fmt.Sprintf("deliver(seq=%d by=%s hook=%v) with next=%d -> %s %s", d.seq, sender.Name, hooked, m.next, res.Class, res.ErrString()))
 	switch {
 	case !isExec:
 		run.Check("C06.non_executor_rejected", res.Class != sim.OK, "c06.non_executor_accepted", tr, "deposit finalization by non-executor %s accepted", sender.Name)
@@ -102,7 +124,13 @@ func (c *c06) step(e *L2Env, m *c06Model, d pendingDeposit, sender sim.Account, 
 		run.Check("C06.in_order_succeeds", ok, "c06.in_order_failed", tr, "expected sequence %d by executor failed: %s", d.seq, res.ErrString())
 		if res.Class == sim.OK {
 			m.next++
-			m.credited[d.toStr+"/"+e.L2Denom(d.denom)] += d.amount
+			if hooked {
+				run.Count("C06.in_order_deposits_with_failing_multi_message_hook")
+				m.credited[d.toStr+"/"+e.L2Denom(d.denom)] += 0 // refunded: nothing stays, neither with the recipient nor with the hook's payee
+				m.credited[e.Users[5].String()+"/"+e.L2Denom(d.denom)] += 0
+			} else {
+				m.credited[d.toStr+"/"+e.L2Denom(d.denom)] += d.amount
+			}
 		}
 	}
 	if res.Class == sim.OK {
